@@ -1,6 +1,7 @@
 import NssVerif.RealInst
 import NssVerif.Model.Atmosphere
 import NssVerif.Gen.AtmConsts
+import NssVerif.Gen.Src.C19
 import NssVerif.Lemmas.Atmosphere
 import NssVerif.Lemmas.AtmosphereModel
 import NssVerif.Lemmas.AtmSliver
@@ -1240,5 +1241,72 @@ example : pressureFromAltitude (Gen.AtmConsts.layers (7000:ℝ)) 7000 = 0 := (ze
 example : ∃ P : ℝ, pressureFromAltitude (Gen.AtmConsts.layers (7000:ℝ)) 120 ≤ P ∧ P ≤ 101325 := by
   refine ⟨_, le_rfl, le_trans (model_top 7000 (by norm_num)).2.2.2 ?_⟩
   simp [Gen.AtmConsts.layers, nth] <;> norm_num
+
+/-! ### source tie: the functions translated from the Python source of the working tree ARE the model
+
+`Gen/Src/C19.lean` is regenerated on every run (harness/pytrans.py, harness/srcspecs/C19.py) from BOTH shipped copies of
+`us_std_atm_pressure_from_altitude` / `us_std_atm_altitude_from_pressure` (suffix `A`: `simulation/atmosphere/pressure.py`,
+suffix `B`: `simulation/eas_optical/atmospheric_models.py`): the selection loop over the concrete layer index is unrolled,
+the Boolean-mask stores become `if`s, `table[i]` is a lookup in the live module's table (emitted as exact doubles), and
+`np.inf` is the input `inf`.
+
+The equalities hold for EVERY `Scalar` instance — over ℝ (what the theorems above are about) and at `Float` (what the driver
+executes).  They are not `rfl`: the source writes the result with two masked updates (`P[m & x] *= …; P[~m & x] *= …`, and
+`h[x] = …; h[~x] = inf` on an `empty_like` array) where the model writes nested `if x … if m …`; the two shapes are identified
+by case analysis on the two Booleans only, every arithmetic sub-term being identical (`rfl` in each of the four cases). -/
+
+/-- `pressure.us_std_atm_pressure_from_altitude` as translated from the source equals the model on the regenerated table -/
+theorem src_pressureFromAltitudeA {α : Type} [Scalar α] (z inf : α) :
+    Gen.Src.C19.pressureFromAltitudeA z inf = pressureFromAltitude (Gen.AtmConsts.layers inf) z := by
+  unfold Gen.Src.C19.pressureFromAltitudeA
+  extract_lets z1 x h1 h2 i0 i1 i2 i3 i4 i5 i6 i7 Pb P Lm m Tb Hb P1 P2
+  have hh2 : (if x then geopotential (Gen.AtmConsts.layers inf) z else inf) = h2 := by
+    show _ = (if (!x) = true then inf else if x = true then _ else _)
+    cases x <;> rfl
+  have hR : pressureFromAltitude (Gen.AtmConsts.layers inf) z
+      = if x then pressureInLayer (Gen.AtmConsts.layers inf)
+            (layerOfHeight (Gen.AtmConsts.layers inf) (if x then geopotential (Gen.AtmConsts.layers inf) z else inf))
+            (if x then geopotential (Gen.AtmConsts.layers inf) z else inf)
+          else nth (Gen.AtmConsts.layers inf).pb
+            (layerOfHeight (Gen.AtmConsts.layers inf) (if x then geopotential (Gen.AtmConsts.layers inf) z else inf)) := rfl
+  rw [hR, hh2]
+  show (if (!m && x) = true then (if (m && x) = true then P * _ else P) * _ else (if (m && x) = true then P * _ else P))
+      = if x then (if m then P * _ else P * _) else P
+  clear_value m x
+  cases x <;> cases m <;> rfl
+
+/-- `pressure.us_std_atm_altitude_from_pressure` as translated from the source equals the model on the regenerated table -/
+theorem src_altitudeFromPressureA {α : Type} [Scalar α] (P inf : α) :
+    Gen.Src.C19.altitudeFromPressureA P inf = altitudeFromPressure (Gen.AtmConsts.layers inf) P := by
+  unfold Gen.Src.C19.altitudeFromPressureA
+  extract_lets P1 i0 i1 i2 i3 i4 i5 i6 i7 Hb H Lm m x Tb Pb H1 H2 z z1
+  show (if (!x) = true then inf else if x = true then
+        (_ * (if (!m && x) = true then (if (m && x) = true then H + _ else H) + _ else (if (m && x) = true then H + _ else H)))
+          / (_ - (if (!m && x) = true then (if (m && x) = true then H + _ else H) + _ else (if (m && x) = true then H + _ else H)))
+        else _)
+      = if x then geometric (Gen.AtmConsts.layers inf) (if m then H + _ else H + _) else inf
+  clear_value m x
+  cases x <;> cases m <;> rfl
+
+/-- **the two shipped copies are the same function** (as translated from the two source files), for every `Scalar` instance —
+this replaces the informational comparison of the two ASTs -/
+theorem src_copies_equal {α : Type} [Scalar α] (x inf : α) :
+    Gen.Src.C19.pressureFromAltitudeB x inf = Gen.Src.C19.pressureFromAltitudeA x inf ∧
+    Gen.Src.C19.altitudeFromPressureB x inf = Gen.Src.C19.altitudeFromPressureA x inf := ⟨rfl, rfl⟩
+
+/-- hence the copy in `eas_optical/atmospheric_models.py` (the one `clouds.py` calls) equals the model too -/
+theorem src_pressureFromAltitudeB {α : Type} [Scalar α] (z inf : α) :
+    Gen.Src.C19.pressureFromAltitudeB z inf = pressureFromAltitude (Gen.AtmConsts.layers inf) z :=
+  (src_copies_equal z inf).1.trans (src_pressureFromAltitudeA z inf)
+
+theorem src_altitudeFromPressureB {α : Type} [Scalar α] (P inf : α) :
+    Gen.Src.C19.altitudeFromPressureB P inf = altitudeFromPressure (Gen.AtmConsts.layers inf) P :=
+  (src_copies_equal P inf).2.trans (src_altitudeFromPressureA P inf)
+
+/-- so the tolerance clauses are theorems about the translated source, e.g. the round trip z → P → z of `roundtrip_1e6` -/
+theorem src_roundtrip_1e6 (inf z : ℝ) (hinf : 6371 ≤ inf) (hz0 : 0 ≤ z) (hz1 : z ≤ 120) :
+    |Gen.Src.C19.altitudeFromPressureA (Gen.Src.C19.pressureFromAltitudeA z inf) inf - z| ≤ 1e-6 := by
+  rw [src_pressureFromAltitudeA, src_altitudeFromPressureA]
+  exact roundtrip_1e6 inf z hinf hz0 hz1
 
 end C19
